@@ -710,8 +710,7 @@ def r6b_diagnoses_reach_record(report, repo):
                '(e.g. skipped as a duplicate): a failure diagnosis re-issued '
                'by a later invocation no longer makes that invocation FAIL')
   runs = core.calls_in(f.node, attr='run')
-  report.check(len(runs) == 1 and not any(
-      isinstance(p, (ast.For, ast.While)) for p in core.parents(runs[0])), rule,
+  report.check(len(runs) == 1 and not core.repeated_by_loop(runs[0]), rule,
                f.qualname, 'diagnoser-run-once', f.node,
                'the diagnoser runs exactly once per invocation')
   ad = repo.func(TS, 'PhaseState.add_diagnosis')
